@@ -235,44 +235,44 @@ def harness_plan(prop, tier, quick, thorough, min_eval=1000, policy=None, extra=
 
 def plan(prop, tier):
     if prop == "C01":
-        return harness_plan(prop, tier, [("rel", 10, 1500), ("asan", 6, 300)], [("rel", 14, 9000), ("asan", 14, 2500), ("clang-asan", 4, 800)])
+        return harness_plan(prop, tier, [("rel", 10, 1500), ("asan", 6, 300)], [("rel", 14, 80000), ("asan", 14, 15000), ("clang-asan", 4, 5000)])
     if prop == "C02":
-        return harness_plan(prop, tier, [("rel", 10, 1500), ("asan", 6, 300)], [("rel", 14, 6000), ("asan", 14, 1500)])
+        return harness_plan(prop, tier, [("rel", 10, 1500), ("asan", 6, 300)], [("rel", 14, 50000), ("asan", 14, 10000)])
     if prop == "C03":
-        return harness_plan(prop, tier, [("rel", 10, 4000), ("asan", 6, 1000)], [("rel", 14, 12000), ("asan", 14, 3000)])
+        return harness_plan(prop, tier, [("rel", 10, 4000), ("asan", 6, 1000)], [("rel", 14, 150000), ("asan", 14, 30000)])
     if prop == "C04":
-        return harness_plan(prop, tier, [("rel", 8, 2500), ("asan", 8, 500)], [("rel", 12, 12000), ("asan", 16, 3000), ("clang-asan", 4, 800)])
+        return harness_plan(prop, tier, [("rel", 8, 2500), ("asan", 8, 500)], [("rel", 12, 100000), ("asan", 16, 20000), ("clang-asan", 4, 5000)])
     if prop == "C05":
-        return harness_plan(prop, tier, [("rel", 10, 600), ("asan", 6, 150)], [("rel", 14, 30000), ("asan", 14, 6000)])
+        return harness_plan(prop, tier, [("rel", 10, 600), ("asan", 6, 150)], [("rel", 14, 100000), ("asan", 14, 20000)])
     if prop == "C06":
-        return harness_plan(prop, tier, [("rel", 10, 300), ("asan", 6, 60)], [("rel", 14, 2500), ("asan", 14, 500)])
+        return harness_plan(prop, tier, [("rel", 10, 300), ("asan", 6, 60)], [("rel", 14, 15000), ("asan", 14, 3000)])
     if prop == "C07":
-        return harness_plan(prop, tier, [("rel", 10, 3000), ("asan", 6, 600)], [("rel", 14, 15000), ("asan", 14, 3000)])
+        return harness_plan(prop, tier, [("rel", 10, 3000), ("asan", 6, 600)], [("rel", 14, 200000), ("asan", 14, 30000)])
     if prop == "C08":
-        return harness_plan(prop, tier, [("rel", 10, 400), ("asan", 6, 80)], [("rel", 14, 3000), ("asan", 14, 700)])
+        return harness_plan(prop, tier, [("rel", 10, 400), ("asan", 6, 80)], [("rel", 14, 20000), ("asan", 14, 4000)])
     if prop == "C09":
-        return harness_plan(prop, tier, [("rel", 10, 1200), ("asan", 6, 250)], [("rel", 14, 5000), ("asan", 14, 1200)])
+        return harness_plan(prop, tier, [("rel", 10, 1200), ("asan", 6, 250)], [("rel", 14, 60000), ("asan", 14, 12000)])
     if prop == "C10":
-        return harness_plan(prop, tier, [("rel", 10, 200), ("asan", 6, 40)], [("rel", 14, 4000), ("asan", 14, 900)])
+        return harness_plan(prop, tier, [("rel", 10, 200), ("asan", 6, 40)], [("rel", 14, 20000), ("asan", 14, 4000)])
     if prop == "C12":
-        c = harness_plan(prop, tier, [("rel", 10, 1000), ("asan", 6, 200)], [("rel", 14, 10000), ("asan", 14, 2500)])
+        c = harness_plan(prop, tier, [("rel", 10, 1000), ("asan", 6, 200)], [("rel", 14, 60000), ("asan", 14, 12000)])
         clean_emit(c)
         c.post = compile_emitted
         return c
     if prop == "C13":
-        c = harness_plan(prop, tier, [("rel", 10, 800), ("asan", 6, 150)], [("rel", 14, 8000), ("asan", 14, 2000)])
+        c = harness_plan(prop, tier, [("rel", 10, 800), ("asan", 6, 150)], [("rel", 14, 50000), ("asan", 14, 10000)])
         clean_emit(c)
         c.post = compile_emitted
         return c
     if prop == "C14":
-        return harness_plan(prop, tier, [("rel", 10, 400), ("asan", 6, 80)], [("rel", 14, 2500), ("asan", 14, 500)])
+        return harness_plan(prop, tier, [("rel", 10, 400), ("asan", 6, 80)], [("rel", 14, 10000), ("asan", 14, 1500)])
     if prop == "C15":
-        return harness_plan(prop, tier, [("rel", 10, 1500), ("asan", 6, 300)], [("rel", 14, 8000), ("asan", 14, 2000)])
+        return harness_plan(prop, tier, [("rel", 10, 1500), ("asan", 6, 300)], [("rel", 14, 60000), ("asan", 14, 12000)], level="fault_enumeration")
     if prop == "C16":
-        c = harness_plan(prop, tier, [("tsan", 8, 8), ("rel", 6, 15), ("asan", 2, 4)], [("tsan", 12, 40), ("rel", 8, 60), ("asan", 6, 10)], min_eval=1000)
+        c = harness_plan(prop, tier, [("tsan", 8, 8), ("rel", 6, 15), ("asan", 2, 4)], [("tsan", 12, 150), ("rel", 8, 200), ("asan", 6, 30)], min_eval=1000)
         return c
     if prop == "C18":
-        c = harness_plan(prop, tier, [("rel", 6, 3000), ("asan", 4, 800)], [("rel", 12, 150000), ("asan", 8, 30000)], min_eval=1000)
+        c = harness_plan(prop, tier, [("rel", 6, 3000), ("asan", 4, 800)], [("rel", 12, 1000000), ("asan", 8, 150000)], min_eval=1000)
         # the exhaustive enumeration runs once per flavour
         done = set()
         for j in c.jobs:
@@ -299,5 +299,5 @@ def plan(prop, tier):
         import gen_c20
         return tierb_plan(prop, tier, gen_c20, min_eval=50, max_parallel=8)
     if prop == "C17":
-        return harness_plan(prop, tier, [("rel", 10, 4000), ("asan", 4, 800)], [("rel", 14, 15000), ("asan", 10, 3000)])
+        return harness_plan(prop, tier, [("rel", 10, 4000), ("asan", 4, 800)], [("rel", 14, 150000), ("asan", 10, 25000)])
     return None
